@@ -99,7 +99,7 @@ type ffn struct {
 	base    string
 	what    string
 	effect  bool
-	strTyp  string // str | bytes
+	strTyp  string    // str | bytes
 	helpers []fhelper // in order of completion (a helper is complete after the helpers it calls)
 	nloops  int
 	ntmp    int
